@@ -8,6 +8,12 @@ from . import models as M
 REGISTRY = []
 
 
+def thorough():
+    """True in the thorough tier: contract modules then also register their bounded stand-ins with larger bounds."""
+    import os
+    return os.environ.get('PYVC_TIER') == 'thorough'
+
+
 class Harness:
     def __init__(self, name, fn, props, backend='native', desc='', functions=(), replay=None, assumptions=(),
                  kind='proof', max_paths=20000, timeout_s=None, fallback=None):
